@@ -20,10 +20,13 @@ import sys
 import time
 
 VERIF = os.path.dirname(os.path.dirname(os.path.abspath(__file__)))
-HARNESS = os.path.join(VERIF, "harness")
-BUILD = os.path.join(VERIF, ".build")
-WORK = os.path.join(VERIF, ".work")
-REPO = "/repo"
+# development overrides (mutation validation runs against scratch copies; the registered
+# commands never set these)
+HARNESS = os.environ.get("AISVERIF_HARNESS", os.path.join(VERIF, "harness"))
+BUILD = os.environ.get("AISVERIF_BUILD", os.path.join(VERIF, ".build"))
+WORK = os.environ.get("AISVERIF_WORK", os.path.join(VERIF, ".work"))
+REPO = os.environ.get("AISVERIF_REPO", "/repo")
+OUT = os.environ.get("AISVERIF_OUT", VERIF)
 NCPU = min(16, os.cpu_count() or 4)
 
 sys.path.insert(0, os.path.dirname(os.path.abspath(__file__)))
@@ -230,7 +233,7 @@ def classify(prop, sig, known):
 # ----------------------------------------------------------------------------
 
 def write_evidence(pid, tier, seed, coverage, wall, nviol, assumptions=None, level="exploration"):
-    os.makedirs(os.path.join(VERIF, "evidence"), exist_ok=True)
+    os.makedirs(os.path.join(OUT, "evidence"), exist_ok=True)
     ev = {
         "property_id": pid,
         "tier": tier,
@@ -241,7 +244,7 @@ def write_evidence(pid, tier, seed, coverage, wall, nviol, assumptions=None, lev
         "wall_s": round(wall, 2),
         "violations": nviol,
     }
-    with open(os.path.join(VERIF, "evidence", pid + ".json"), "w") as f:
+    with open(os.path.join(OUT, "evidence", pid + ".json"), "w") as f:
         json.dump(ev, f, indent=1, sort_keys=True)
         f.write("\n")
 
@@ -250,7 +253,7 @@ def finish(pid, tier, seed, t0, coverage, violations, inconclusive, replay_dir=N
     """violations: list of dicts(prop, sig, detail, replay, cfg, profile, count).
     Prints the verdict lines, writes evidence and replays, returns the exit status."""
     known, _fixed = load_known()
-    os.makedirs(os.path.join(VERIF, "replays"), exist_ok=True)
+    os.makedirs(os.path.join(OUT, "replays"), exist_ok=True)
     fresh, kf = [], {}
     for v in violations:
         k = classify(v["prop"], v["sig"], known)
@@ -276,7 +279,7 @@ def finish(pid, tier, seed, t0, coverage, violations, inconclusive, replay_dir=N
                 continue
             seen.add(key)
             n += 1
-            path = os.path.join(VERIF, "replays", "%s-%d-%d.json" % (pid, seed, n))
+            path = os.path.join(OUT, "replays", "%s-%d-%d.json" % (pid, seed, n))
             rec = dict(v["replay"]) if isinstance(v["replay"], dict) else {"kind": "note", "note": v["replay"]}
             rec.update({"property": pid, "signature": v["sig"], "detail": v["detail"],
                         "build": "%s/%s" % (v.get("profile"), v.get("cfg")), "seed": seed, "tier": tier})
